@@ -134,7 +134,12 @@ impl Display for Variant<'_> {
                     )?;
                 }
 
-                write!(f, "{body}")
+                // A body which is itself a let is a separate group, so it needs parentheses.
+                if let Self::Let(_, _) = body.variant {
+                    write!(f, "({body})")
+                } else {
+                    write!(f, "{body}")
+                }
             }
             Self::Integer => write!(f, "{INTEGER_KEYWORD}"),
             Self::IntegerLiteral(integer) => write!(f, "{integer}"),
